@@ -5,17 +5,22 @@
 EXTENDS LinkedControl, Json, Sequences
 CONSTANTS Depth, Depth2,
           Upd,     \* controllers whose driver calls update_target
-          UpdAny   \* FALSE: only the module in control calls update_target (the documented use)
+          UpdAny,  \* FALSE: only the module in control calls update_target (the documented use)
+          FC,      \* controllers whose take-over is also tried with a failing hook ("off" and "on")
+          FO       \* outputs whose switch to manual mode is also tried with a failing hook ("off")
 VARIABLE hist
 
 Obs == [active |-> active', cby |-> cby', foreign |-> foreign']
 Rec(a) == hist' = Append(hist, a @@ [exp |-> Obs])
 
 GInit == /\ CInit
-         /\ hist = <<[act |-> "init", lay |-> lay, exp |-> [active |-> active, cby |-> cby, foreign |-> foreign]]>>
-GNext == \/ \E c \in Ctls : TakeOver(c) /\ Rec([act |-> "take", c |-> c])
+         /\ (FC = {} /\ FO = {}) => exc = "hardware"      \* without faults nothing is raised
+         /\ hist = <<[act |-> "init", lay |-> lay, exc |-> exc, exp |-> [active |-> active, cby |-> cby, foreign |-> foreign]]>>
+GNext == \/ \E c \in Ctls : TakeOver(c, "none") /\ Rec([act |-> "take", c |-> c, f |-> "none"])
+         \/ \E c \in FC, f \in {"off", "on"} : TakeOver(c, f) /\ Rec([act |-> "take", c |-> c, f |-> f])
+         \/ \E o \in FO : SelfControl(o, "off") /\ Rec([act |-> "self", o |-> o, f |-> "off"])
          \/ \E c \in Upd : (UpdAny \/ cby[OutOf(c)] = c) /\ UpdateTarget(c) /\ Rec([act |-> "upd", c |-> c])
-         \/ \E o \in Outs : SelfControl(o) /\ Rec([act |-> "self", o |-> o])
+         \/ \E o \in Outs : SelfControl(o, "none") /\ Rec([act |-> "self", o |-> o, f |-> "none"])
 GSpec == GInit /\ [][GNext]_<<cvars, hist>>
 
 D == IF lay % 10 = 0 THEN Depth ELSE Depth2
